@@ -837,6 +837,13 @@ func (g *Goroutine) sortSlice(c *frame, x Value, less Value, stable bool) {
 }
 
 func addMiscIntrinsics(m map[string]Intrinsic) {
+	// net/http connection machinery: (*http.Transport).RoundTrip is modelled as
+	// "dial the origin through the transport's own DialTLSContext / DialContext
+	// with the request context and the canonical address of URL.Host; a dial
+	// error is the result" (connections themselves are outside every property).
+	m["(*net/http.Transport).RoundTrip"] = func(g *Goroutine, c *frame, fn *ssa.Function, a []Value) (Value, bool) {
+		return g.httpRoundTrip(c, fn, a[0], a[1]), true
+	}
 	// X25519 key generation: an opaque key with fresh symbolic public and private bytes.
 	m["(*crypto/ecdh.x25519Curve).GenerateKey"] = func(g *Goroutine, c *frame, fn *ssa.Function, a []Value) (Value, bool) {
 		prog := g.w.prog
@@ -931,4 +938,69 @@ func setField(v Value, t types.Type, name string, x Value) {
 		}
 	}
 	panic("engine: no field " + name + " in " + t.String())
+}
+
+func fieldByName(v Value, t types.Type, name string) Value {
+	st := t.Underlying().(*types.Struct)
+	for i := 0; i < st.NumFields(); i++ {
+		if st.Field(i).Name() == name {
+			return v.agg()[i]
+		}
+	}
+	panic("engine: no field " + name + " in " + t.String())
+}
+
+func (g *Goroutine) httpRoundTrip(c *frame, fn *ssa.Function, tr, req Value) Value {
+	prog := g.w.prog
+	trT := prog.namedType("net/http", "Transport")
+	reqT := prog.namedType("net/http", "Request")
+	urlT := prog.namedType("net/url", "URL")
+	if tr.R == nil || req.R == nil {
+		c.runtimePanic("nil transport or request")
+	}
+	rv := *req.ptr()
+	u := fieldByName(rv, reqT, "URL")
+	if u.R == nil {
+		return tup(Value{K: KPtr}, prog.newError("http: nil Request.URL"))
+	}
+	uv := *u.ptr()
+	scheme, ok1 := concStr(fieldByName(uv, urlT, "Scheme"))
+	host := fieldByName(uv, urlT, "Host")
+	if !ok1 {
+		g.p.unsupported("http RoundTrip with symbolic scheme")
+	}
+	ctx := fieldByName(rv, reqT, "ctx")
+	if ctx.R == nil {
+		ctx = g.call(c, Value{K: KFunc, R: prog.function("context", "Background")}, nil)
+	}
+	port := "443"
+	dialName := "DialTLSContext"
+	switch scheme {
+	case "http":
+		port = "80"
+		dialName = "DialContext"
+	case "https":
+	default:
+		return tup(Value{K: KPtr}, prog.newError("unsupported protocol scheme"))
+	}
+	hs, hok := concStr(host)
+	addr := host
+	if hok {
+		if i := strings.LastIndexByte(hs, ':'); i < 0 || strings.HasSuffix(hs, "]") {
+			addr = mkStr(hs + ":" + port)
+		}
+	} else {
+		addr = mkStrBytes(append(append([]Value{}, strBytes(host)...), strBytes(mkStr(":" + port))...))
+	}
+	dial := fieldByName(*tr.ptr(), trT, dialName)
+	if dial.R == nil {
+		return tup(Value{K: KPtr}, prog.newError("http: real network dialing is outside the model"))
+	}
+	res := g.call(c, dial, []Value{ctx, mkStr("tcp"), addr})
+	conn, err := res.agg()[0], res.agg()[1]
+	if err.R != nil {
+		return tup(Value{K: KPtr}, err)
+	}
+	_ = conn
+	return tup(Value{K: KPtr}, prog.newError("http: connection established; protocol exchange is outside the model"))
 }
